@@ -94,11 +94,33 @@ def strip_helper_rule(ctx, r):
     rt, rf = ret_expr(st), ret_expr(sf)
     ok_t = rt and all(any(is_call(y, "core::ops::index::Index::index") for y in walk(x)) and mentions_call(x, AB) and
                       any(y.k == "agg" and y[1].endswith("RangeTo") for y in walk(x)) for x in rt)
-    ok_f = rf and all(strip(x).k == "arg" and strip(x)[1] == 1 for x in rf)
-    if ok_t and ok_f:
-        r.ok("helper|result", "match ⇒ bytes[..len - term.len()], otherwise the line unchanged", fn=f)
+    # when the full sequence is not there: the line unchanged, except that under CRLF a bare LF (lines are split on LF
+    # alone) is the terminator and goes as well — exactly one byte, and only behind is_crlf() ∧ last == LF
+    unchanged = [x for x in rf if strip(x).k == "arg" and strip(x)[1] == 1]
+    cut1 = [x for x in rf if x not in unchanged]
+    crlf_sw = cond_switches(f, lambda e: is_call(e, "grep_matcher::LineTerminator::is_crlf"), eb)
+    cut_ok = all(any(is_call(y, "core::ops::index::Index::index") for y in walk(x)) and
+                 any(y.k == "bin" and y[1] in ("Sub", "SubWithOverflow") and any(W.const_val(a) == 1 for a in (y[2], y[3])) for y in walk(x))
+                 for x in cut1)
+    if ok_t and unchanged and cut_ok:
+        r.ok("helper|result", "match ⇒ bytes[..len - term.len()]; otherwise the line unchanged (or minus one bare LF under CRLF)", fn=f)
     else:
         r.bad("helper|result", "without_terminator returns %s / %s" % ([show(x)[:40] for x in rt], [show(x)[:40] for x in rf]), fn=f,
+              construct="without_terminator")
+    # under CRLF the per-line paths cut lines at every LF; a line ending in a bare LF must lose it too, or `^$`-like
+    # patterns see the LF on the slow path (which strips) but not on the fast path (which searches the buffer)
+    blocks1 = [bb for bb, j, s_ in f.stmts() if s_["k"] == "assign" and s_["place"]["l"] == 0 and not s_["place"]["p"] and
+               eb.rvalue(s_["rv"]) in cut1]
+    lf = cond_switches(f, lambda e: (is_call(e, "core::cmp::PartialEq::eq") and any(x.k == "const" and (x[1] == 10 or "10_u8" in str(x[2]) or "\\n" in str(x[2])) for x in walk(e)))
+                       or (e.k == "bin" and e[1] == "Eq" and any(W.const_val(a) == 10 for a in (e[2], e[3]))), eb)
+    if cut1 and crlf_sw and lf and not guarded(f, blocks1, crlf_sw, True) and not guarded(f, blocks1, lf, True):
+        r.ok("helper|crlf-lf", "CRLF ∧ line ends in a bare LF ⇒ that LF is stripped too", fn=f)
+    elif cut1:
+        r.bad("helper|crlf-lf", "without_terminator drops a single byte outside the is_crlf() ∧ last == LF case", fn=f,
+              construct="without_terminator")
+    else:
+        r.bad("helper|crlf-lf", "under a CRLF terminator without_terminator leaves a bare LF on the line: the slow path then lets "
+              "`^$`-like patterns match after it, the fast path does not (strategies and paths disagree)", fn=f,
               construct="without_terminator")
     g = facts.fn("grep_matcher::LineTerminator::as_bytes")
     ebg = ExprBuilder(g)
@@ -597,7 +619,7 @@ def striphir_rule(ctx, r):
 
 
 def run(ctx):
-    with ctx.rule("C01.STRIP", "per-line matcher calls receive the terminator-stripped line; the stripping helper's definition", floor=5,
+    with ctx.rule("C01.STRIP", "per-line matcher calls receive the terminator-stripped line; the stripping helper's definition", floor=6,
                   kind="FLOW/TABLE") as r:
         strip_rule(ctx, r)
         strip_helper_rule(ctx, r)
